@@ -205,6 +205,7 @@ func ctxOf(v Value) *ctxObj {
 
 type muState struct {
 	writer  *Thread
+	pending map[*Thread]bool // writers blocked in Lock: Go's RWMutex makes new readers wait behind them
 	readers map[*Thread]int
 	obj     *Object
 	key     string
@@ -218,7 +219,7 @@ func (e *Exec) muOf(p *Pointer) *muState {
 	if s, ok := e.ext[key]; ok {
 		return s.(*muState)
 	}
-	s := &muState{readers: map[*Thread]int{}, obj: p.Obj, key: key}
+	s := &muState{readers: map[*Thread]int{}, pending: map[*Thread]bool{}, obj: p.Obj, key: key}
 	e.ext[key] = s
 	return s
 }
@@ -245,16 +246,23 @@ func init() {
 					} else {
 						e.cur.Wait = "Lock " + m.key
 					}
+					if !e.probing {
+						m.pending[e.cur] = true
+					}
 					return nil, true
 				}
 				if e.probing {
 					panic(probeOK{})
 				}
+				delete(m.pending, e.cur)
 				m.writer = e.cur
 				e.raceAcquire(m, true)
 			} else {
-				if m.writer != nil {
+				if m.writer != nil || len(m.pending) > 0 {
 					e.cur.Wait = "RLock " + m.key
+					if len(m.pending) > 0 && m.readers[e.cur] > 0 {
+						e.cur.Wait = "recursive RLock " + m.key + " while a writer is waiting (RWMutex writer preference)"
+					}
 					return nil, true
 				}
 				if e.probing {
@@ -491,6 +499,14 @@ func init() {
 	reg("(*github.com/prometheus/client_golang/prometheus.CounterVec).With", vecWith("counter"))
 	reg("(*github.com/prometheus/client_golang/prometheus.HistogramVec).With", vecWith("observer"))
 	reg("(*github.com/prometheus/client_golang/prometheus.SummaryVec).With", vecWith("observer"))
+
+	// --- net/http headers (only read for log tags) ---
+	reg("(net/http.Header).Get", func(e *Exec, fv *FuncV, args []Value, cc *ssa.CallCommon) (Value, bool) {
+		return e.C.Str(""), false
+	})
+	reg("(*net/http.Request).UserAgent", func(e *Exec, fv *FuncV, args []Value, cc *ssa.CallCommon) (Value, bool) {
+		return e.C.Str(""), false
+	})
 
 	// --- sort ---
 	reg("sort.Slice", func(e *Exec, fv *FuncV, args []Value, cc *ssa.CallCommon) (Value, bool) {
